@@ -79,6 +79,34 @@ def convert(pose, be):
     return Pose(pose.header, pose.body.torch() if be == "torch" else pose.body.tensorflow())
 
 
+def mask_coordinates(pose, be, cells, fill):
+    """single coordinates (frame, person, point, dimension) of OBSERVED points marked missing on top of the confidence rule — a missing slot like any other: what is
+    stored there (this run's filling) may not reach the visible result"""
+    from pose_format import Pose
+    vals = np.array(fill, dtype=np.uint32).view(np.float32)
+    body = pose.body
+    if be == "numpy":
+        raw = ma.getdata(body.data)
+        for i, (f, p, n, d) in enumerate(cells):
+            raw[f, p, n, d] = vals[i % len(vals)]
+            body.data[f, p, n, d] = ma.masked
+            ma.getdata(body.data)[f, p, n, d] = vals[i % len(vals)]
+        return pose
+    if be == "torch":
+        import torch
+        from pose_format.torch.masked import MaskedTensor
+        t, m = body.data.tensor.clone(), body.data.mask.clone()
+        for i, (f, p, n, d) in enumerate(cells):
+            t[f, p, n, d] = float(vals[i % len(vals)]); m[f, p, n, d] = False
+        return Pose(pose.header, type(body)(body.fps, MaskedTensor(t, m), body.confidence))
+    import tensorflow as tf
+    from pose_format.tensorflow.masked.tensor import MaskedTensor
+    t, m = np.array(body.data.tensor), np.array(body.data.mask)
+    for i, (f, p, n, d) in enumerate(cells):
+        t[f, p, n, d] = vals[i % len(vals)]; m[f, p, n, d] = False
+    return Pose(pose.header, type(body)(body.fps, MaskedTensor(tf.constant(t), tf.constant(m)), body.confidence))
+
+
 def apply(pose, op, be):
     """→ (pose, backend, extra views)"""
     from pose_format import Pose
@@ -164,6 +192,8 @@ def run_one(case, fill, ops, be, wide_garbage=False):
                 raw[m] = g[np.arange(int(m.sum())) % len(g)]
             pose.body = NumPyPoseBody(pose.body.fps, raw, np.asarray(pose.body.confidence))
         pose = convert(pose, be)
+        if case.get("extra_mask"):
+            pose = mask_coordinates(pose, be, case["extra_mask"], fill)
         out.append({"body": body_view(pose.body, be)})
     except Exception as e:
         return [{"error": type(e).__name__ + ": " + str(e)[:160]}]
